@@ -12,6 +12,19 @@ use std::path::Path;
 // FIXME: the transmute for native functions is scary - maybe use typed wrappers?
 
 impl ModuleLoader {
+    // The manifest entry of a native module: keyed by the import path as written
+    // (`[module."plugins.native_test"]`, the key the resolver uses) or by its last segment.
+    fn native_policy(
+        &self,
+        module_path_str: &str,
+        module_name: &str,
+    ) -> Option<&aelys_modules::manifest::ModulePolicy> {
+        let manifest = self.manifest.as_ref()?;
+        manifest
+            .module(module_path_str)
+            .or_else(|| manifest.module(module_name))
+    }
+
     pub(crate) fn load_native_module(
         &mut self,
         file_path: &Path,
@@ -24,7 +37,7 @@ impl ModuleLoader {
             .last()
             .cloned()
             .expect("needs.path validated as non-empty");
-        if let Some(policy) = self.manifest.as_ref().and_then(|m| m.module(&module_name)) {
+        if let Some(policy) = self.native_policy(module_path_str, &module_name) {
             if !policy.capabilities.is_empty()
                 && let Err(denied_cap) = vm.config().check_native_capabilities(&policy.capabilities)
             {
@@ -66,7 +79,7 @@ impl ModuleLoader {
             .load_dynamic(module_path_str, file_path)
             .map_err(|err| self.native_error(module_path_str, err, needs.span))?;
 
-        if let Some(policy) = self.manifest.as_ref().and_then(|m| m.module(&module_name))
+        if let Some(policy) = self.native_policy(module_path_str, &module_name)
             && let Some(required_version) = &policy.required_version
         {
             let version_ok = match (&native_module.version, VersionReq::parse(required_version)) {
